@@ -66,7 +66,7 @@ func (x *Exec) loopCut(fr *Frame, st *State, h *ssa.BasicBlock, idx int, edges [
 			if fr.lets == nil {
 				fr.lets = map[string]specVal{}
 			}
-			fr.lets[fmt.Sprintf("variant:%d", idx)] = specVal{x.vc.define("variant", "Int", v.term), tInt}
+			fr.lets[fmt.Sprintf("variant:%d", idx)] = specVal{term: x.vc.define("variant", "Int", v.term), typ: tInt}
 		}
 	}
 }
@@ -78,7 +78,7 @@ func (x *Exec) bindRangeIdx(fr *Frame, h *ssa.BasicBlock, env *SpecEnv) {
 			break
 		}
 		if phi.Comment == "rangeindex" {
-			env.names["G_idx"] = specVal{fr.vals[phi], tInt}
+			env.names["G_idx"] = specVal{term: fr.vals[phi], typ: tInt}
 		}
 	}
 }
@@ -298,7 +298,7 @@ func (x *Exec) monitorCall(fr *Frame, st *State, ci ssa.CallInstruction, m *Moni
 	if pk, ok := x.p.AllPkgs[m.Pkg]; ok {
 		env.pkg = pk.Types
 	}
-	env.names[m.Self] = specVal{q, self.Type()}
+	env.names[m.Self] = specVal{term: q, typ: self.Type()}
 	switch method {
 	case "Lock", "RLock":
 		// other goroutines may have changed the guarded fields: havoc them at this object
